@@ -83,13 +83,21 @@ TopK(f) == LET K == Kt(f)  fk == FFrob2(K)  sl == FSumR([j \in 1..f.k |-> FMul(f
 Group(g) == C.groups[g]
 \* precondition of the route law: the retained eigenvalues are distinct and separated from the rest (gap > 2 % of the largest)
 Separated(f) == \A j \in 1..f.k : GapOK(f.lamfull, j)
+\* predictions and the reconstruction depend on the retained SUBSPACE only: it is enough that the boundary behind the k-th
+\* eigenvalue is separated, or that every non-zero eigenvalue is retained (components of zero weight contribute nothing:
+\* their latent coordinates vanish and the projectors guard the division)
+ZeroFrom(l, r) == \A j \in r..Len(l) : l[j] <= 64
+SubspaceFixed(f) == GapOK(f.lamfull, f.k) \/ \E r \in 1..f.k : ZeroFrom(f.lamfull, r + 1) /\ GapOK(f.lamfull, r)
+\* the compared quantities are direct outputs of the two fits (rounded to 1/S): routes may differ by float64 noise only, so
+\* the budget is a few units plus 0.2 % of the largest entry - it does not grow with the size of any projector
+RBud(M) == 48 + FMaxAbs(M) \div 500
 RouteClause(g) == LET f0 == F[Group(g)[1]] IN
     IF \E q \in 2..Len(Group(g)) : LET f == F[Group(g)[q]] IN
-          Separated(f0) /\ ~EqUpToSigns(f.T, f0.T, f0.k, 2 * PB(m, X, f0.pxt) + 32) THEN "latent-space-depends-on-the-route"
+          Separated(f0) /\ ~EqUpToSigns(f.T, f0.T, f0.k, RBud(f0.T)) THEN "latent-space-depends-on-the-route"
     ELSE IF \E q \in 2..Len(Group(g)) : LET f == F[Group(g)[q]] IN
-          f.cmpY /\ Separated(f0) /\ ~Within(f.Yp, f0.Yp, 2 * PB(m, X, f0.pxy) + 64) THEN "predictions-depend-on-the-route"
+          f.cmpY /\ (Separated(f0) \/ SubspaceFixed(f0)) /\ ~Within(f.Yp, f0.Yp, RBud(f0.Yp)) THEN "predictions-depend-on-the-route"
     ELSE IF \E q \in 2..Len(Group(g)) : LET f == F[Group(g)[q]] IN
-          Separated(f0) /\ ~Within(f.Xr, f0.Xr, 2 * PB(f0.k, f0.T, f0.ptx) + 64) THEN "reconstruction-depends-on-the-route"
+          (Separated(f0) \/ SubspaceFixed(f0)) /\ ~Within(f.Xr, f0.Xr, RBud(f0.Xr)) THEN "reconstruction-depends-on-the-route"
     ELSE IF \E q \in 2..Len(Group(g)) : LET f == F[Group(g)[q]] IN
           \E j \in 1..f0.k : FAbs(f.lam[j] - f0.lam[j]) > 16 + f0.lam[j] \div 1000 THEN "spectrum-depends-on-the-route"
     ELSE "ok"
@@ -150,8 +158,9 @@ TooBig == \E i \in 1..NF : FMaxAbs(F[i].pxt) > 120 * S \/ FMaxAbs(F[i].ptx) > 12
 TBig == \E i \in 1..NF : FMaxAbs(F[i].T) > 120 * S
 Clause == IF C.raised THEN "valid-fit-raised"
           ELSE IF TBig THEN "latent-coordinates-out-of-range-or-not-finite"
+          ELSE IF C.mode = "C03" THEN C03Clause          \* uses latent coordinates, spectrum, predictions and reconstructions only
           ELSE IF TooBig THEN "inconclusive"
-          ELSE IF C.mode = "C14" THEN C14Clause ELSE IF C.mode = "C03" THEN C03Clause ELSE C04Clause
+          ELSE IF C.mode = "C14" THEN C14Clause ELSE C04Clause
 Verdict == LET c == Clause IN IF c = "ok" THEN <<"ok">> ELSE IF c = "inconclusive" THEN <<"inconclusive", "magnitude">> ELSE <<"rejected", c>>
 Emit == PrintT(ToJson([k |-> "V", id |-> C.id, v |-> Verdict, ctx |-> [mode |-> C.mode, nfits |-> NF]]))
 =============================================================================
